@@ -160,7 +160,7 @@ theorem rel_date (b : Bytes) (hb : b.length = 4) :
   have hr1 : ∀ bs, Spec.Codec.read .date none bs = match readDate bs with
       | some (some d) => .exact (.date (some d))
       | some none => .exact (.date none)
-      | none => .invalid [.date none] := fun _ => rfl
+      | none => if bs.all nibblesOk then .invalid [.date none] else .invalid [] := fun _ => rfl
   have hr2 : ∀ bs, Spec.Codec.read .datePtr none bs = match readDate bs with
       | some (some d) => .exact (.datePtr (some (some d)))
       | some none => .noValue [.datePtr none, .datePtr (some none)]
@@ -170,6 +170,8 @@ theorem rel_date (b : Bytes) (hb : b.length = 4) :
   · have hdec := decode_ok _ hok
     have hs := unpack4_sentinels c y m d
     have hcore := decDateCore_unpack4 c y m d
+    have hn : [c, y, m, d].all nibblesOk = true := by rw [nibblesOk_eq]; exact hok
+    rw [if_pos hn]
     rw [readDate_ok c y m d hok]
     by_cases h0 : [c, y, m, d] = [0, 0, 0, 0]
     · have s0 := hs.1.2 h0
@@ -192,6 +194,8 @@ theorem rel_date (b : Bytes) (hb : b.length = 4) :
         · simp [hv, Rel]
   · have hok' : [c, y, m, d].all Spec.BCD.okByte = false := by simpa using hok
     have hdec := decode_bad _ hok'
+    have hn : ¬ [c, y, m, d].all nibblesOk = true := by rw [nibblesOk_eq]; simpa using hok'
+    rw [if_neg hn]
     rw [readDate_bad _ hok']
     simp [decField, decDate, decDatePtr, hdec, Rel]
 
@@ -309,7 +313,7 @@ theorem rel_dateTime (b : Bytes) (hb : b.length = 7) :
   have hr1 : ∀ bs, Spec.Codec.read .dateTime none bs = match readDateTime bs with
       | some (some d) => .exact (.dateTime (some d))
       | some none => .exact (.dateTime none)
-      | none => .invalid [.dateTime none] := fun _ => rfl
+      | none => if bs.all nibblesOk then .invalid [.dateTime none] else .invalid [] := fun _ => rfl
   have hr2 : ∀ bs, Spec.Codec.read .dateTimePtr none bs = match readDateTime bs with
       | some (some d) => .exact (.dateTimePtr (some (some d)))
       | some none => .noValue [.dateTimePtr none, .dateTimePtr (some none)]
@@ -335,7 +339,8 @@ theorem rel_dateTime (b : Bytes) (hb : b.length = 7) :
         have e1 : decField goodFacts BCD.canonical B0 .dateTime [0x20, 0, 0, 0, 0, 0, 0] = .ok (.dateTime none) := by decide
         have e2 : decField goodFacts BCD.canonical B0 .dateTimePtr [0x20, 0, 0, 0, 0, 0, 0] = .ok (.dateTimePtr none) := by decide
         have r : readDateTime [0x20, 0, 0, 0, 0, 0, 0] = none := by decide
-        rw [e1, e2, r]; simp [Rel]
+        have hn : ([0x20, 0, 0, 0, 0, 0, 0] : Bytes).all nibblesOk = true := by decide
+        rw [e1, e2, r, if_pos hn]; simp [Rel]
       · have hsent : ¬ ([c, y, mo, d, h, mi, s] = [0, 0, 0, 0, 0, 0, 0] ∨ [c, y, mo, d, h, mi, s] = [0x00, 0x01, 0x01, 0x01, 0, 0, 0] ∨
             [c, y, mo, d, h, mi, s] = [0x20, 0, 0, 0, 0, 0, 0]) := by
           intro hc; rcases hc with hc | hc | hc
@@ -345,6 +350,8 @@ theorem rel_dateTime (b : Bytes) (hb : b.length = 7) :
         by_cases hok : [c, y, mo, d, h, mi, s].all Spec.BCD.okByte = true
         · have hdec := decode_ok _ hok
           have hcore := decDateTimeCore_unpack7 c y mo d h mi s
+          have hn : [c, y, mo, d, h, mi, s].all nibblesOk = true := by rw [nibblesOk_eq]; exact hok
+          rw [if_pos hn]
           rw [readDateTime_ok c y mo d h mi s hok]
           rw [if_neg (by intro hc; rcases hc with hc | hc; exact h0 hc; exact h1 hc)]
           simp only [decField, decDateTime, decDateTimePtr, hsent, if_false, hdec, hcore]
@@ -372,6 +379,8 @@ theorem rel_dateTime (b : Bytes) (hb : b.length = 7) :
           · simp [hv, Rel]
         · have hok' : [c, y, mo, d, h, mi, s].all Spec.BCD.okByte = false := by simpa using hok
           have hdec := decode_bad _ hok'
+          have hn : ¬ [c, y, mo, d, h, mi, s].all nibblesOk = true := by rw [nibblesOk_eq]; simpa using hok'
+          rw [if_neg hn]
           rw [readDateTime_bad _ hok']
           simp only [decField, decDateTime, decDateTimePtr, hsent, if_false, hdec, Rel]
           simp
